@@ -33,6 +33,9 @@ def run(c):
     for n in names:
         if n.startswith("model"):
             dv[n] = (("chain", "draw", "model_dim_0", "model_dim_1"), rng.uniform(-100, 100, (k, d, 3, 3)))
+        elif "poly_coeff" in n or n.startswith("bspl_w") or n.endswith("_at_wv"):
+            # link-function coefficients / weights and values saved at explicit wavelengths are vectors: arviz gives them a third axis
+            dv[n] = (("chain", "draw", n + "_dim_0"), rng.uniform(-100, 100, (k, d, 3)))
         else:
             dv[n] = (("chain", "draw"), rng.uniform(-100, 100, (k, d)))
     ds = xr.Dataset(dv)
